@@ -270,8 +270,13 @@ def plan_roundtrip(fmts, seed, tier):
     nseg = rng.choice([1, 2, 2, 3])
     big = tier == "thorough"
     cfg = gen.default_cfg(rng, fmt, tier)
+    common = None
+    if mixed:
+        # names every one of the chosen formats can carry
+        common = [c for c in gen.FRAG_NAME_CLASSES[poolfrag]
+                  if all(c in gen.FRAG_NAME_CLASSES[f_] for f_ in fmts)]
     pool = gen.name_pool(rng, poolfrag, rng.randint(16, 40) if cfg["size"] == "l" else
-                         rng.randint(6, 14))
+                         rng.randint(6, 14), common)
     if rng.random() < 0.3:
         cfg["nonascii_values"] = True
     lineages = []   # dict(ref, handle or None, path or None)
